@@ -97,6 +97,11 @@ def sh2(cmd, cwd=None, env=None, timeout=1800, stdin=None):
 # --------------------------------------------------------------------------- Go harness
 def ensure_harness_module():
     """harness/go.mod pins the module under test to /repo's working tree."""
+    if REPO != "/repo" and os.path.realpath(ROOT) == "/verif":
+        # harness/go.mod is shared by every property's harness build: pointing it at another tree from inside the real
+        # /verif would make concurrently running checks build against that tree (happened once: see DESIGN 0.5)
+        raise CheckError("VERIF_REPO=%s inside the real /verif: run checks against another tree from a scratch copy "
+                         "of /verif (scripts/seeded_run.sh shows how)" % REPO)
     gomod = os.path.join(HARNESS, "go.mod")
     want = ("module verifharness\n\ngo 1.16\n\nrequire github.com/Eyevinn/mp4ff v0.0.0\n\n"
             "replace github.com/Eyevinn/mp4ff => %s\n" % REPO)
